@@ -55,6 +55,11 @@ PROGS = [
     # the sole owner releases the transport inside its own close callback, with and without a parked receiver
     "8 | io=accept:1,waitflag:s,data:1:2,close:1 ; main=mode:1:sync,armreset,setflag:s",
     "8 | io=accept:1,waitflag:s,close:1 ; main=mode:1:sync,armreset,waitparked:a,setflag:s ; a=recv:1:4:100000",
+    # the I/O thread finishes its current batch AFTER stop() was called (the real engines do): data for a parked reader arrives with
+    # the teardown fence up and before the sessions are closed - it must still reach the reader (never PeerClosed with bytes missing)
+    "8 | io=accept:1,waitflag:s,atstop,data:1:3 ; main=mode:1:sync,setflag:s,waitparked:a,destroy ; a=waitflag:s,recv:1:8:100000",
+    "8 | io=accept:1,waitflag:s,data:1:2,atstop,data:1:3,data:1:1 ; main=mode:1:sync,setflag:s,waitparked:a,stop,join ; a=waitflag:s,recv:1:2:100000,recv:1:8:100000,recv:1:8:50",
+    "8 | io=accept:1,accept:2,waitflag:s,atstop,data:2:2,data:1:3 ; main=mode:1:sync,mode:2:sync,setflag:s,waitparked:a,destroy ; a=waitflag:s,recv:1:8:100000 ; b=waitflag:s,recv:2:8:100000",
 ]
 
 
